@@ -38,12 +38,12 @@ fn registry() -> Vec<Arc<dyn Check>> {
     let mut v: Vec<Arc<dyn Check>> = vec![Arc::new(c05::C05)];
     v.push(Arc::new(Composite {
         id: "C02",
-        step: Arc::new(stepchecks::StepCheck { id: "C02", quick: 15_000, thorough: 240_000 }),
+        step: Arc::new(stepchecks::StepCheck { id: "C02", quick: 15_000, thorough: 160_000 }),
         burst: Arc::new(c18::C18 { id: "C02" }),
     }));
     for id in ["C01", "C03", "C04", "C07", "C08", "C09", "C10", "C11", "C14", "C15", "C16", "C19"] {
         // checks whose workload verifies many argon2 hashes get a smaller thorough tier (about 10 minutes on 16 cores each)
-        let thorough = if matches!(id, "C03" | "C11" | "C19" | "C14") { 800_000 } else { 1_500_000 };
+        let thorough = if matches!(id, "C03" | "C11" | "C19" | "C14") { 500_000 } else { 900_000 };
         v.push(Arc::new(stepchecks::StepCheck { id, quick: 30_000, thorough }));
     }
     v.push(Arc::new(c06::C06));
